@@ -24,11 +24,12 @@ PROPERTY = "C06"
 LEVEL = "exploration"
 ANCHOR_FILES = ["quantem/core/datastructures/dataset.py"]
 RULE = (
-    "seeded matrix over op (bin, resample laws/linearity/identity/up-down, pad-crop) x ndim 1..4 x dtype kind (int/float/complex); "
+    "seeded matrix over op (bin, resample laws/linearity/identity/up-down, pad-crop, and histories of 3-6 in-place/copying bin/pad/crop/resample calls on ONE object, "
+    "every step judged against the state read through the public attributes just before it) x ndim 1..4 x dtype kind (int/float/complex); "
     "shapes odd/even/length-1, axis subsets spelled None / int / tuple in any order / negative indices, factors incl. non-dividing and "
     "> length/2, reducers, out shapes x0.3..x3 incl. odd<->even, both copying and in-place variants. non-trivial = non-constant data and "
     "(some bin factor > 1 | some output length != input length | some pad width > 0); distinct = (op, ndim, parity pattern of the shape, "
-    "dtype kind, number of axes operated on)"
+    "dtype kind, number of axes operated on); for histories: non-trivial = >= 2 distinct op kinds and >= 1 in-place step, distinct = the op sequence"
 )
 ASSUMPTIONS = [
     "float64 / complex128 / integer inputs are judged at 1e-10 relative to the data (or coordinate) scale; float32 / complex64 inputs, for which "
@@ -45,11 +46,11 @@ MIN_EVALUATIONS = {"quick": 5000, "thorough": 100000}
 REQUIRED_COUNTERS = [
     "eval:bin_block_values", "eval:bin_origin", "eval:bin_sampling", "eval:bin_count_conservation", "eval:bin_block_centre",
     "eval:rs_mean", "eval:rs_centre", "eval:rs_extent", "eval:rs_linear", "eval:rs_identity", "eval:rs_updown", "eval:rs_spectrum_band",
-    "eval:padcrop_roundtrip", "eval:pad_placement",
+    "eval:padcrop_roundtrip", "eval:pad_placement", "eval:crop_slice", "eval:copying_call_changed_source",
 ]
 EXHAUSTIVE = {"quick": False, "thorough": False}
 
-KINDS = [("bin", 8), ("rs_laws", 6), ("rs_linear", 3), ("rs_identity", 2), ("rs_updown", 5), ("padcrop", 4)]
+KINDS = [("bin", 8), ("rs_laws", 6), ("rs_linear", 3), ("rs_identity", 2), ("rs_updown", 5), ("padcrop", 4), ("history", 6)]
 DKINDS = ["int", "float", "complex"]
 TOL = {"64": 1e-10, "32": 5e-5}  # measured floors: 64-bit paths <= 1e-15, float32 bin/mean 1.5e-7
 TOL_RS = {"64": 1e-10, "32": 2e-4}  # float32 resample content: measured 6.4e-7
@@ -205,8 +206,17 @@ def _case_bin(spec, idx, ctx):
             ctx.count("copying_call_repeated_on_same_source")
         res = ds.bin(fac_arg, **kw)
     a2f = dict(zip(axes, factors))
-    exp_shape = tuple(shape[i] // a2f[i] if i in a2f else shape[i] for i in range(len(shape)))
     what = lambda: "shape=%s dtype=%s axes=%r factors=%r reducer=%s inplace=%s" % (shape, dtype, axes_arg, fac_arg, reducer, inplace)
+    _judge_bin(ctx, a, o0, s0, res, a2f, reducer, prec, fields, what)
+    ctx.nontrivial(("bin", spec["ndim"], G.parity_pattern(shape), spec["dkind"], len(axes)), max(factors) > 1 and a.size > 1)
+    ctx.observe(shape=shape, dtype=dtype, axes=repr(axes_arg), factors=repr(fac_arg), reducer=reducer, inplace=inplace, cls=type(res).__name__, out_shape=tuple(res.shape))
+
+
+def _judge_bin(ctx, a, o0, s0, res, a2f, reducer, prec, fields, what):
+    """all bin laws for one call: `a`, `o0`, `s0` are the array and calibration read just before the call, `res` the dataset holding the result"""
+    shape = tuple(a.shape)
+    factors = list(a2f.values())
+    exp_shape = tuple(shape[i] // a2f[i] if i in a2f else shape[i] for i in range(len(shape)))
     ok_shape = ctx.check(tuple(res.shape) == exp_shape, "bin_shape", lambda: "%s: result shape %s, expected %s (remainder dropped)" % (what(), tuple(res.shape), exp_shape), **fields)
     o1, s1 = _cal(res)
     ctx.check(len(o1) == len(shape) and len(s1) == len(shape), "bin_calibration_length", lambda: what(), **fields)
@@ -258,8 +268,6 @@ def _case_bin(spec, idx, ctx):
         tot_ref = complex(np.sum(np.asarray(cov, dtype=np.complex128))) if cov.size else 0j
         tot_got = complex(np.sum(got.astype(np.complex128))) * (vol if reducer == "mean" else 1) if got.size else 0j
         ctx.close(abs(tot_got - tot_ref) / (_scale(a) * max(1, cov.size)), tol, _m("bin_count_conservation", prec), lambda: "%s: sum(binned)=%r sum(covered)=%r" % (what(), tot_got, tot_ref), **fields)
-    ctx.nontrivial(("bin", spec["ndim"], G.parity_pattern(shape), spec["dkind"], len(axes)), max(factors) > 1 and a.size > 1)
-    ctx.observe(shape=shape, dtype=dtype, axes=repr(axes_arg), factors=repr(fac_arg), reducer=reducer, inplace=inplace, cls=type(res).__name__, out_shape=tuple(res.shape))
 
 
 # ------------------------------------------------------------------------------------------------
@@ -342,6 +350,45 @@ def _rs_calibration_laws(ctx, o0, s0, shape, res, axes, fields, what):
         ctx.close(d / cscale, 1e-12, "rs_untouched_axis_calibration", lambda: "%s: calibration of a non-resampled axis changed" % what(), **fields)
 
 
+def _judge_rs_laws(ctx, a, o0, s0, res, axes, prec, fields, what):
+    """mean / centre / extent / explicit-DFT laws of one fourier_resample call relative to the state read just before it"""
+    shape = tuple(a.shape)
+    ndim = a.ndim
+    tol, tolc = TOL[prec], TOL_RS[prec]
+    out = np.asarray(res.array)
+    sc = _scale(a)
+    ax_t = tuple(axes)
+    m0 = np.mean(a.astype(np.complex128), axis=ax_t)
+    m1 = np.mean(out.astype(np.complex128), axis=ax_t)
+    ctx.close(float(np.max(np.abs(m1 - m0))) / sc, tol, _m("rs_mean", prec), lambda: "%s: mean over the resampled axes changed" % what(), **fields)
+    _rs_calibration_laws(ctx, o0, s0, shape, res, axes, fields, what)
+    # explicit DFT oracle: amplitudes inside the common band, zeros beyond the input band
+    Gin = _spectrum(a, axes)
+    Gout = _spectrum(out, axes)
+    sel_in, sel_out = [slice(None)] * ndim, [slice(None)] * ndim
+    outside = np.zeros(out.shape, dtype=bool)
+    for ax in axes:
+        N, M = shape[ax], out.shape[ax]
+        kin, kout = _centred_k(N), _centred_k(M)
+        band = min(N, M)
+        sel_in[ax] = np.flatnonzero(2 * np.abs(kin) < band)
+        sel_out[ax] = np.flatnonzero(2 * np.abs(kout) < band)
+        o_ax = 2 * np.abs(kout) > N
+        shp = [1] * ndim
+        shp[ax] = M
+        outside |= o_ax.reshape(shp)
+    Bin, Bout = Gin, Gout
+    for ax in axes:
+        Bin = np.take(Bin, sel_in[ax], axis=ax)
+        Bout = np.take(Bout, sel_out[ax], axis=ax)
+    ctx.close(float(np.max(np.abs(np.abs(Bout) - np.abs(Bin)))) / sc, tolc, _m("rs_spectrum_band", prec), lambda: "%s: spectral amplitude inside the common band changed" % what(), **fields)
+    if outside.any():
+        ctx.close(float(np.max(np.abs(Gout[outside]))) / sc, tolc, _m("rs_spectrum_outside", prec), lambda: "%s: content beyond the input band" % what(), **fields)
+    ex = ctx.state["evidence_extra"]
+    ex["rs_phase_exact_worst"] = max(ex["rs_phase_exact_worst"], float(np.max(np.abs(Bout - Bin))) / sc)
+    ex["rs_phase_exact_n"] += 1
+
+
 def _case_rs(spec, idx, ctx):
     rng = ctx.rng(idx)
     sub = spec["kind"][3:]
@@ -387,38 +434,8 @@ def _case_rs(spec, idx, ctx):
         res = _rs_call(ds, lens, axes_arg, arg_form, shape, axes, inplace, ctx, fields, free=free_factors, warm=bool(idx % 2))
         if not shape_ok(res):
             return
+        _judge_rs_laws(ctx, a, o0, s0, res, axes, prec, fields, what)
         out = np.asarray(res.array)
-        sc = _scale(a)
-        ax_t = tuple(axes)
-        m0 = np.mean(a.astype(np.complex128), axis=ax_t)
-        m1 = np.mean(out.astype(np.complex128), axis=ax_t)
-        ctx.close(float(np.max(np.abs(m1 - m0))) / sc, tol, _m("rs_mean", prec), lambda: "%s: mean over the resampled axes changed" % what(), **fields)
-        _rs_calibration_laws(ctx, o0, s0, shape, res, axes, fields, what)
-        # explicit DFT oracle: amplitudes inside the common band, zeros beyond the input band
-        Gin = _spectrum(a, axes)
-        Gout = _spectrum(out, axes)
-        sel_in, sel_out = [slice(None)] * ndim, [slice(None)] * ndim
-        outside = np.zeros(out.shape, dtype=bool)
-        for ax in axes:
-            N, M = shape[ax], out.shape[ax]
-            kin, kout = _centred_k(N), _centred_k(M)
-            band = min(N, M)
-            sel_in[ax] = np.flatnonzero(2 * np.abs(kin) < band)
-            sel_out[ax] = np.flatnonzero(2 * np.abs(kout) < band)
-            o_ax = 2 * np.abs(kout) > N
-            shp = [1] * ndim
-            shp[ax] = M
-            outside |= o_ax.reshape(shp)
-        Bin, Bout = Gin, Gout
-        for ax in axes:
-            Bin = np.take(Bin, sel_in[ax], axis=ax)
-            Bout = np.take(Bout, sel_out[ax], axis=ax)
-        ctx.close(float(np.max(np.abs(np.abs(Bout) - np.abs(Bin)))) / sc, tolc, _m("rs_spectrum_band", prec), lambda: "%s: spectral amplitude inside the common band changed" % what(), **fields)
-        if outside.any():
-            ctx.close(float(np.max(np.abs(Gout[outside]))) / sc, tolc, _m("rs_spectrum_outside", prec), lambda: "%s: content beyond the input band" % what(), **fields)
-        ex = ctx.state["evidence_extra"]
-        ex["rs_phase_exact_worst"] = max(ex["rs_phase_exact_worst"], float(np.max(np.abs(Bout - Bin))) / sc)
-        ex["rs_phase_exact_n"] += 1
         nontriv = any(out.shape[ax] != shape[ax] for ax in axes)
     elif sub == "linear":
         b = G.rand_data(rng, shape, dtype, small=small)
@@ -567,6 +584,143 @@ def _case_padcrop(spec, idx, ctx):
     ctx.observe(shape=shape, dtype=dtype, output_shape=tuple(out_shape), before=before, after=after, mode=mode, crop=repr(cw), inplace=inplace)
 
 
+# ------------------------------------------------------------------------------------------------
+# histories: several operations on ONE dataset object, every step judged against the state read just before it
+
+
+def _case_history(spec, idx, ctx):
+    """3-6 operations (bin / pad / crop / fourier_resample incl. the same-shape resample), in place or copying, on one object.
+    Before every call the array and calibration are read through the public attributes; the laws of that call are judged
+    relative to that state, so anything an earlier call left behind on the object (stale caches, half-updated fields) shows."""
+    rng = ctx.rng(idx)
+    ndim, dk = spec["ndim"], spec["dkind"]
+    dtype = G.pick_dtype(rng, dk)
+    shape0 = _rs_shape(rng, ndim)
+    ds = _make(ctx, rng, G.rand_data(rng, shape0, dtype))
+    nops = int(rng.integers(3, 7))
+    trail, done, ip_done = [], [], set()
+    for step in range(nops):
+        a = np.array(ds.array, copy=True)
+        o0, s0 = _cal(ds)
+        shp = tuple(a.shape)
+        prec = G.precision(a.dtype)
+        w = np.array([0.2, 0.22, 0.15, 0.3, 0.13])  # bin pad crop resample resample_same
+        if a.size > 2500:
+            w = np.array([0.4, 0.0, 0.4, 0.1, 0.1])
+        if a.size <= 2:
+            w = np.array([0.05, 0.5, 0.0, 0.3, 0.15])
+        k = ["bin", "pad", "crop", "resample", "resample_same"][int(rng.choice(5, p=w / w.sum()))]
+        inplace = bool(rng.random() < 0.55)
+        fields = {"op": "history", "step_op": k, "inplace": inplace, "dkind": dk, "prec": prec, "ndim": ndim,
+                  "earlier_inplace_ops": "+".join(sorted(ip_done)) or "none", "earlier_resample": any(d.startswith("resample") for d in done)}
+        desc = {}
+        what = lambda: "history on one %s%s %s: [%s] then %s %r%s" % (type(ds).__name__, shape0, dtype, " ; ".join(trail), k, desc, " in place" if inplace else "")
+        call = None
+        judge = None
+        if k == "bin":
+            form, axes, axes_arg = _pick_axes(rng, ndim)
+            factors = [_pick_factor(rng, shp[ax]) for ax in axes]
+            reducer = "sum" if rng.random() < 0.6 else "mean"
+            kw = {"reducer": reducer}
+            if axes_arg is not None:
+                kw["axes"] = axes_arg
+            desc.update(factors=tuple(factors), axes=axes_arg, reducer=reducer)
+            fields["axes_form"] = form
+            a2f = dict(zip(axes, factors))
+            call = lambda ip: ds.bin(tuple(factors), modify_in_place=ip, **kw)
+            judge = lambda res: _judge_bin(ctx, a, o0, s0, res, a2f, reducer, prec, fields, what)
+        elif k == "pad":
+            if rng.random() < 0.55:
+                osh = tuple(int(n + rng.integers(-1, 5)) if n > 1 else int(n + rng.integers(0, 4)) for n in shp)
+                pairs = [((m - n) // 2, (m - n) - (m - n) // 2) if m > n else (0, 0) for m, n in zip(osh, shp)]
+                kw = {"output_shape": osh}
+            else:
+                pairs = [(int(rng.integers(0, 3)), int(rng.integers(0, 3))) for _ in shp]
+                kw = {"pad_width": tuple(pairs)}
+            desc.update(kw)
+            call = lambda ip: ds.pad(modify_in_place=ip, **kw)
+
+            def judge(res, pairs=pairs):
+                exp_shape = tuple(n + b + c for n, (b, c) in zip(shp, pairs))
+                if ctx.check(tuple(res.shape) == exp_shape, "pad_shape", lambda: "%s: padded shape %s, expected %s" % (what(), tuple(res.shape), exp_shape), **fields):
+                    inner = np.asarray(res.array)[tuple(slice(b, b + n) for n, (b, c) in zip(shp, pairs))]
+                    ctx.check(inner.dtype == a.dtype and np.array_equal(inner, a), "pad_placement", lambda: "%s: original block not found at offset %s" % (what(), [b for b, c in pairs]), **fields)
+        elif k == "crop":
+            form, axes, axes_arg = _pick_axes(rng, ndim)
+            sl = [slice(None)] * ndim
+            cw = []
+            for ax in axes:
+                n = shp[ax]
+                lo = int(rng.integers(0, n))
+                hi = int(rng.integers(lo + 1, n + 1))
+                sl[ax] = slice(lo, hi)
+                u = rng.random()
+                cw.append((lo, 0) if (hi == n and u < 0.5) else ((lo, hi - n) if (hi < n and u < 0.4) else (lo, hi)))
+            kw = {} if axes_arg is None else {"axes": axes_arg}
+            if isinstance(axes_arg, (int, np.integer)):
+                cw = cw[:1]
+            desc.update(crop_widths=tuple(cw), axes=axes_arg)
+            fields["axes_form"] = form
+            call = lambda ip: ds.crop(tuple(cw), modify_in_place=ip, **kw)
+
+            def judge(res, sl=tuple(sl)):
+                got = np.asarray(res.array)
+                exp = a[sl]
+                ctx.check(got.shape == exp.shape and got.dtype == exp.dtype and np.array_equal(got, exp), "crop_slice", lambda: "%s: cropped data is not the [min, max) block; shape %s, expected %s" % (what(), got.shape, exp.shape), **fields)
+        else:
+            form, axes, axes_arg = _pick_axes(rng, ndim)
+            if k == "resample_same":
+                lens = [shp[ax] for ax in axes]
+            else:
+                lens = []
+                for ax in axes:
+                    n = shp[ax]
+                    lens.append(int(rng.integers(max(1, int(np.ceil(0.4 * n))), min(2 * n, n + 6) + 1)))
+                if all(m == shp[ax] for m, ax in zip(lens, axes)):
+                    lens[0] = shp[axes[0]] + 1
+            kw = {} if axes_arg is None else {"axes": axes_arg}
+            if rng.random() < 0.75:
+                kw["out_shape"] = tuple(lens)
+            else:
+                kw["factors"] = tuple(m / shp[ax] for m, ax in zip(lens, axes))
+            desc.update(kw)
+            fields["axes_form"] = form
+            a2m = dict(zip(axes, lens))
+            exp_shape = tuple(a2m.get(i, shp[i]) for i in range(ndim))
+            call = lambda ip: ds.fourier_resample(modify_in_place=ip, **kw)
+
+            def judge(res, axes=axes, exp_shape=exp_shape, same=(k == "resample_same")):
+                if not ctx.check(tuple(res.shape) == exp_shape, "rs_shape", lambda: "%s: result shape %s, expected %s" % (what(), tuple(res.shape), exp_shape), **fields):
+                    return
+                if same:
+                    out = np.asarray(res.array)
+                    ctx.close(float(np.max(np.abs(out.astype(np.complex128) - a.astype(np.complex128)))) / _scale(a), TOL_RS[prec], _m("rs_identity", prec), lambda: "%s: resampling to the same shape changed the data" % what(), **fields)
+                    _rs_calibration_laws(ctx, o0, s0, shp, res, axes, fields, what)
+                else:
+                    _judge_rs_laws(ctx, a, o0, s0, res, axes, prec, fields, what)
+        ctx.count("history_step:" + k + ("_ip" if inplace else ""))
+        if inplace:
+            r = call(True)
+            ctx.check(r is None, "inplace_returns_value", lambda: "%s returned %r" % (what(), type(r).__name__), **fields)
+            judge(ds)
+            ip_done.add(k)
+        else:
+            res = call(False)
+            judge(res)
+            o0b, s0b = _cal(ds)
+            same_src = np.array_equal(np.asarray(ds.array), a) and ds.array.dtype == a.dtype and np.array_equal(o0b, o0) and np.array_equal(s0b, s0)
+            ctx.check(same_src, "copying_call_changed_source", lambda: "%s: the source object changed" % what(), **fields)
+            if rng.random() < 0.3:
+                ds = res  # continue on the returned dataset (it inherits whatever copy() carries over)
+                trail.append("(continue on the copy)")
+        done.append(k + ("_ip" if inplace else ""))
+        trail.append("%s %r%s" % (k, desc, " in place" if inplace else ""))
+        if not ds.array.size:
+            break
+    ctx.nontrivial(("history", ndim, dk, tuple(done)), len(set(d.split("_ip")[0] for d in done)) >= 2 and bool(ip_done))
+    ctx.observe(start_shape=shape0, dtype=dtype, ops=trail, final_shape=tuple(ds.shape))
+
+
 def run_case(spec, idx, ctx):
     import warnings
 
@@ -578,6 +732,8 @@ def run_case(spec, idx, ctx):
                 _case_bin(spec, idx, ctx)
             elif k == "padcrop":
                 _case_padcrop(spec, idx, ctx)
+            elif k == "history":
+                _case_history(spec, idx, ctx)
             else:
                 _case_rs(spec, idx, ctx)
 
